@@ -387,27 +387,55 @@ def run(repo, rep):
               '; '.join(sorted(set(p7))))
 
     # ---------------------------------------------------------------- D5
+    # the class the decoder builds for each command field of PS3.7 Table E.1-1, by constant propagation through
+    # _command_set_to_message and whatever tables / helpers it consults (peval.py): a command set whose (0000,0100)
+    # element has that value must become an instance of the class with that command_field
+    from ..oracles import ps3_7
+    from ..peval import CannotEval, PEval, Raised, Record, _Row, UNKNOWN
     dm = repo.module('dimsemessages')
-    table = repo.module_const('dimsemessages', 'MESSAGE_TYPE')
-    if not isinstance(table, dict):
-        raise AnalysisError('MESSAGE_TYPE is not a dict literal')
     base = repo.cls('dimsemessages', 'DIMSEMessage')
-    msg_classes = [c for c in dm.classes.values() if c.is_subclass_of(base) and 'command_field' in c.attrs]
-    for code, ref in sorted(table.items()):
-        key = 'dimsemessages:MESSAGE_TYPE[0x%04X]' % code
-        if not isinstance(ref, ClassRef):
-            rep.bad('C07.D5', key, dm.relpath, 'value is not a message class')
-            continue
-        c = repo.cls(ref.module, ref.name)
-        cf = repo.try_fold(c.find_attr('command_field')[1], c.module, c) if c.find_attr('command_field') else None
-        rep.check(cf == code, 'C07.D5', key, c.loc(), '%s.command_field = %04XH' % (c.name, code),
-                  'command field %04XH is dispatched to %s whose command_field is %s'
-                  % (code, c.name, '%04XH' % cf if isinstance(cf, int) else cf))
+    c2m = dec.find_method('_command_set_to_message')
+    if c2m is None:
+        raise AnalysisError('DIMSEDecoder._command_set_to_message not found')
+    rep.analysed(c2m)
+    msg_classes = [c for c in dm.classes.values() if c.is_subclass_of(base) and 'command_field' in c.attrs and c.key != base.key]
+    by_code = {}
     for c in msg_classes:
         cf = repo.try_fold(c.attrs['command_field'], c.module, c)
-        if cf is not None and (cf not in table or table[cf].name != c.name):
+        if isinstance(cf, int):
+            by_code.setdefault(cf, []).append(c.name)
+    for cname, code in sorted(ps3_7.COMMAND_FIELD.items(), key=lambda kv: kv[1]):
+        key = 'dimsemessages:MESSAGE_TYPE[0x%04X]' % code
+        pe = PEval(repo)
+        cs = {(0x0000, 0x0100): Record(value=code, VR='US', VM=1)}
+        try:
+            res = pe.call_function(c2m, [cs], {}, None)
+        except Raised as r:
+            rep.bad('C07.D5', key, c2m.loc(), 'a command set with command field %04XH (%s) is not turned into a message: '
+                    'the decoder raises %s' % (code, cname, r.exc))
+            continue
+        except CannotEval as exc:
+            raise AnalysisError('%s: message class selection cannot be determined: %s' % (c2m.loc(), exc))
+        got = res.cls.name if isinstance(res, _Row) else None
+        if got is None:
+            raise AnalysisError('%s: message class selection for %04XH is not a constant class' % (c2m.loc(), code))
+        c = dm.classes.get(got)
+        cf = repo.try_fold(c.find_attr('command_field')[1], c.module, c) if c is not None and c.find_attr('command_field') else None
+        rep.check(got == cname and cf == code, 'C07.D5', key, c.loc() if c else dm.relpath, '%s.command_field = %04XH' % (got, code),
+                  'command field %04XH is dispatched to %s whose command_field is %s; PS3.7 Table E.1-1: %s'
+                  % (code, got, '%04XH' % cf if isinstance(cf, int) else cf, cname))
+    for c in msg_classes:
+        cf = repo.try_fold(c.attrs['command_field'], c.module, c)
+        if cf is not None and ps3_7.COMMAND_FIELD.get(c.name) != cf:
             rep.bad('C07.D5', 'dimsemessages:MESSAGE_TYPE:%s' % c.name, c.loc(),
-                    '%s (command field %04XH) is not reachable through MESSAGE_TYPE' % (c.name, cf))
+                    '%s has command field %04XH, which PS3.7 Table E.1-1 does not assign to it' % (c.name, cf))
+    # a code outside the table must not be turned into a message
+    try:
+        res = PEval(repo).call_function(c2m, [{(0x0000, 0x0100): Record(value=0x7777, VR='US', VM=1)}], {}, None)
+        if isinstance(res, _Row):
+            rep.bad('C07.D5', 'dimsemessages:MESSAGE_TYPE[unknown]', c2m.loc(), 'an undefined command field (7777H) is decoded as %s' % res.cls.name)
+    except (Raised, CannotEval):
+        pass
     # no_ds source
     p5 = []
     bc = BoolClient(set())
@@ -428,11 +456,6 @@ def run(repo, rep):
                 tag = repo.try_fold(n.slice, fsm, dec)
         if tag != (0x0000, 0x0800):
             p5.append('no-data-set flag computed as %s, PS3.7: (0000,0800) == 0101H' % norm(v))
-    lookups = [n for n in ast.walk(dec.find_method('_command_set_to_message').node) if isinstance(n, ast.Subscript)] \
-        if dec.find_method('_command_set_to_message') else []
-    tags = [repo.try_fold(n.slice, fsm, dec) for n in lookups]
-    if (0x0000, 0x0100) not in tags:
-        p5.append('message class is not selected by tag (0000,0100)')
     rep.check(not p5, 'C07.D5', 'fsm:DIMSEDecoder.process:command-elements', proc.loc(),
               'CommandField (0000,0100) selects the class; (0000,0800)==0101H means no data set', '; '.join(p5))
 
